@@ -31,14 +31,23 @@ def _mode_fns(fx, field):
     return sorted(out)
 
 
+def _returns_bool(f):
+    ty = f.locals[0]["ty"]
+    return ty == "bool" or ty.startswith("core::result::Result<bool,")
+
+
 def stop_set(fx):
     k = ("stop", id(fx))
     if k in _cache:
         return _cache[k]
     import p_gate
     st = set(p_gate.identity_test_fns(fx))
-    st |= set(_mode_fns(fx, "backup"))
-    st |= set(_mode_fns(fx, "reflink"))
+    # decision functions (`needs_backup`, `try_reflink` whatever they are called): they branch on the mode and
+    # answer with a bool; a function that merely reads the mode among other work (a constructor) is a helper
+    for fld in ("backup", "reflink"):
+        for p_ in _mode_fns(fx, fld):
+            if _returns_bool(fx.fns[p_]):
+                st.add(p_)
     # libfs's public functions are the primitives libxcp is written against
     for p, f in fx.fns.items():
         if f.crate == "libfs" and (f.raw.get("exported") or f.raw.get("reachable")) and not f.is_closure:
@@ -65,12 +74,12 @@ def view(fx, path, depth=6, extra_stop=(), threaded=True):
 
 
 def backup_mode_fn(fx):
-    c = [p for p in _mode_fns(fx, "backup") if fx.fns[p].crate == "libxcp"]
+    c = [p for p in _mode_fns(fx, "backup") if fx.fns[p].crate == "libxcp" and _returns_bool(fx.fns[p])]
     return c[0] if c else None
 
 
 def reflink_mode_fn(fx):
-    c = [p for p in _mode_fns(fx, "reflink") if fx.fns[p].crate == "libxcp" and "fmt" not in p]
+    c = [p for p in _mode_fns(fx, "reflink") if fx.fns[p].crate == "libxcp" and _returns_bool(fx.fns[p])]
     return c[0] if c else None
 
 
